@@ -58,7 +58,11 @@ Exp2(M1, M2) == {<<n, Ent("m2", n)>> : n \in {k \in M2.decl : PublicIn(M2.decl, 
 ImpP(M1, M2, P) == Vis(P.use1, Exp1(M1)) \cup Vis(P.use2, Exp2(M1, M2))
 
 ResolveP(M1, M2, P, n) == IF n \in P.decl THEN {Ent("p", n)} ELSE {pr[2] : pr \in {z \in ImpP(M1, M2, P) : z[1] = n}}
-ResolveQ(M1, M2, P, Q, n) == IF n \in Q.decl THEN {Ent("q", n)} ELSE ResolveP(M1, M2, P, n)
+\* q may USE m1 itself (ONLY list of its own); names it does not get that way come from the host
+ImpQ(M1, Q) == Vis(Q.use1, Exp1(M1))
+ResolveQ(M1, M2, P, Q, n) == IF n \in Q.decl THEN {Ent("q", n)}
+                             ELSE LET viaUse == {pr[2] : pr \in {z \in ImpQ(M1, Q) : z[1] = n}} IN
+                                  IF viaUse # {} THEN viaUse ELSE ResolveP(M1, M2, P, n)
 Resolve2(M1, M2, n) == IF n \in M2.decl THEN {Ent("m2", n)} ELSE {pr[2] : pr \in {z \in Imp2(M1, M2) : z[1] = n}}
 
 Sites == {<<s, n>> : s \in {"p", "q", "m2"}, n \in {"x", "y", "lx"}}
@@ -74,11 +78,12 @@ Valid(M1, M2, P, Q) ==
   /\ (M2.accx # "def" => "x" \in M2.decl) /\ (M2.accy # "def" => "y" \in M2.decl)
   /\ (M1.accx # "def" => "x" \in M1.decl)
   /\ M2.use1 \notin {"onlyy"} /\ P.use1 \notin {"onlyy"}
+  /\ ClauseOk(Q.use1, Exp1(M1)) /\ Q.decl \cap NamesOf(ImpQ(M1, Q)) = {}
 
 Init == /\ m1 \in [decl : {{"x"}, {"x", "y"}}, accx : Acc, defpriv : BOOLEAN]
         /\ m2 \in [decl : {{}, {"x"}, {"y"}}, accx : Acc, accy : Acc, defpriv : BOOLEAN, use1 : Clauses \ {"onlyy"}]
         /\ p \in [decl : {{}, {"x"}}, use1 : Clauses \ {"onlyy"}, use2 : {"none", "all", "onlyx", "onlyy"}]
-        /\ q \in [decl : {{}, {"x"}}]
+        /\ q \in [decl : {{}, {"x"}}, use1 : {"none", "onlyy", "onlyx"}]
         /\ Valid(m1, m2, p, q)
         /\ res = Res(m1, m2, p, q)
 Next == UNCHANGED vars
@@ -90,7 +95,7 @@ PrivateNeverOutside ==
      /\ (e[1] = "m1" => PublicIn(m1.decl, AccOf1(m1, e[2]), m1.defpriv, e[2]))
      /\ (e[1] = "m2" /\ st[1] # "m2" => PublicIn(m2.decl, AccOf2(m2, e[2]), m2.defpriv, e[2]))
 LocalShadows == \A n \in q.decl : res[<<"q", n>>] = {Ent("q", n)}
-HostAssociation == \A n \in {"x", "y", "lx"} : n \notin q.decl => res[<<"q", n>>] = res[<<"p", n>>]
+HostAssociation == \A n \in {"x", "y", "lx"} : (n \notin q.decl /\ n \notin NamesOf(ImpQ(m1, q))) => res[<<"q", n>>] = res[<<"p", n>>]
 DefaultPrivateBlocksReexport == m2.defpriv => \A e \in res[<<"p", "x">>] \cup res[<<"p", "y">>] :
                                    e[1] = "m1" => p.use1 # "none"
 RenameHidesOriginal == (p.use1 = "renlx" /\ p.use2 = "none" /\ "x" \notin p.decl) => res[<<"p", "x">>] = {}
